@@ -43,31 +43,31 @@ CHECKS = {
              text="BeamCXLine and BeamEmissionLine emission() are called directly with mock rates that depend on every argument and key; window totals must equal (1/4pi) n_b n_r q with the population-weighted mean q (bounded by the individual coefficients) and (1/4pi) n_b sum Z_i n_i q_i; the arguments each coefficient receives (interaction energy, temperature, total ion density, Z_eff, |B|, equivalent density) are compared with an independent evaluation; exact zeros for zero beam/receiver density; a second instance interleaved (interference / repeat relations); sub-check 'scene': BeamMaterial.emission_function under generated placements of beam and plasma vs model.emission with plasma-space arguments from own matrices.",
              ref="DESIGN.md section 3, C05"),
  "C10": dict(engine="hypothesis-given", technique="rays built by construction (edges, corners, tangential, inside, axis-parallel); oracle: exact event-based chord lengths per cell with own matrices, merged-map and periodicity metamorphic relations, sample-exact replica of the documented midpoint scheme",
-             text="RayTransferBox / RayTransferCylinder with generated grids, masks, voxel maps, steps and rigid transforms are traced with rays aimed at the interesting places; per-source entries must lie within max(2, k) integration steps of the exact chord (k = separate sub-chords), totals within (#active runs) steps, untouched / masked / -1 cells exactly 0, merged maps equal sums of their cells, rotated rays obey the period, and any exception is a violation.",
+             text="RayTransferBox / RayTransferCylinder with generated grids, masks, voxel maps, steps and rigid transforms are traced with rays aimed at the interesting places; per-source entries must lie within max(2, k) integration steps of the exact chord (k = separate sub-chords), totals within (#active runs) steps, untouched / masked / -1 cells exactly 0, merged maps equal sums of their cells, rotated rays obey the period, and any exception is a violation. The thorough tier draws grids up to 14 cells per axis.",
              ref="DESIGN.md section 3, C10"),
  "C14": dict(engine="hypothesis-given", technique="recording wrapped functions with known derivatives; oracles: bit-identical results across evaluation orders and fresh caches, node reproduction, multilinear exactness, a-priori h^2 curvature bound, outside-area policy, bounds-invariance differential",
              text="Caching1D/2D/3D: the same points evaluated in two generated orders and alone on fresh caches must return bit-identical values; nodes (the recorded call arguments) reproduce f, multilinear functions are exact, twice-differentiable ones within 1.0 * sum h_a^2 max|d2f/da2| (2.4x the derived constant), outside points raise or pass through exactly, function_boundaries modes agree.",
              ref="DESIGN.md section 3, C14"),
  "C11": dict(engine="hypothesis-given", technique="generated matrices (rank-deficient, zero rows/columns); oracles: independent numpy SART reference, KKT certificate for NNLS, normal equations for LSQ/SVD",
-             text="SART / constrained SART are compared with a 30-line numpy transcription of the documented update rule (iterate and convergence list, 1e-10), fixed points and non-negativity; regularised NNLS is certified by the KKT conditions on the stacked system, LSQ and SVD by the normal equations (and minimum norm), reported residual norms are recomputed.",
+             text="SART / constrained SART are compared with a 30-line numpy transcription of the documented update rule (iterate and convergence list, 1e-10), fixed points and non-negativity; regularised NNLS is certified by the KKT conditions on the stacked system, LSQ and SVD by the normal equations (and minimum norm), reported residual norms are recomputed. After the calls of a case the caller edits matrix / measurements in place and calls again on the same objects (certified against the edited problem). The thorough tier draws matrices up to 40 x 40.",
              ref="DESIGN.md section 3, C11"),
  "C13": dict(engine="hypothesis-given", technique="recording injective Python callables wrapped by each mapper/sampler; oracle: exact mapped argument (Fraction arithmetic for periodic), own rotation matrices, rational crossing-number polygon test",
              text="Every coordinate-mapping wrapper, clamp, slice, swizzle, periodic transform, polygon mask and sampler is fed generated edge-class arguments; the argument the wrapped function receives and the value returned are compared with the mathematically mapped ones (exactly where the mapping is exact, within stated ulps for hypot/atan2).",
              ref="DESIGN.md section 3, C13"),
  "C18": dict(engine="hypothesis-given+hypothesis-stateful", technique="quadrature of energy density vs E_p/(c tau); segment tiling invariant; erf/overlap oracle for spectra; stateful setter sequences vs freshly constructed object",
-             text="Laser profiles: cross-section (or volume) integrals by independent quadrature must equal the documented energy; generated segments must tile [0, L] exactly once; spectra: per-bin power vs normal-CDF / overlap integrals; history: RuleBasedStateMachine over every public setter, every observable and accessor compared with a fresh object built from the final parameters (accessors also with the parameters themselves).",
+             text="Laser profiles: cross-section (or volume) integrals by independent quadrature must equal the documented energy; generated segments must tile [0, L] exactly once; spectra: per-bin power vs normal-CDF / overlap integrals; history: RuleBasedStateMachine over every public setter, every observable and accessor compared with a fresh object built from the final parameters (accessors also with the parameters themselves). Copies (copy / deepcopy / pickle) taken during a history must stay equal to a fresh object with the parameters they were copied with.",
              ref="DESIGN.md section 3, C18"),
  "C20": dict(engine="hypothesis-given", technique="polynomial exactness of the stencils; metamorphic anisotropy-1 identity on every row; refinement study against the continuous operator",
-             text="Derivative operators are checked for exactness on constants / linear / bilinear / quadratic fields in the cells the statement names; the ADMT operator must be finite, annihilate constants, equal (Dxx+Dyy+diag(1/R)Dx)*sqrt(dx dy) entrywise for anisotropy 1 on any flux map, and converge (error ratio >= 1.6 per halving, < 5 % on the finest grid) to the continuous field-aligned diffusion operator for smooth flux maps.",
+             text="Derivative operators are checked for exactness on constants / linear / bilinear / quadratic fields in the cells the statement names; the ADMT operator must be finite, annihilate constants, equal (Dxx+Dyy+diag(1/R)Dx)*sqrt(dx dy) entrywise for anisotropy 1 on any flux map, and converge (error ratio >= 1.6 per halving, < 5 % on the finest grid) to the continuous field-aligned diffusion operator for smooth flux maps. calculate_admt is also called three times on one operators dict and one flux-map buffer refilled in place (bit-equal to fresh copies). The thorough tier draws grids up to 24 x 24.",
              ref="DESIGN.md section 3, C20"),
  "C04": dict(engine="hypothesis-given", technique="generated beams/plasmas/stopping tables; oracle: independent cross-section quadrature vs particle-rate * exp(-tau) with tau by scipy.quad over own transforms; RK4 streamline invariants",
-             text="Generated beam parameters, placements, attenuator settings, 1-3 ion species with non-uniform profiles and analytic stopping coefficients. The cross-section integral of Beam.density (48x48 Gauss-Legendre; polar rule inside the clamp ellipse) must equal P/(E m)/v * exp(-tau(z)) within the a-priori error bound of the documented trapezoid/linear-interpolation scheme; plus monotone on-axis decay, zeros outside [0,L] and outside the clamp, unit direction field whose streamlines keep x/sigma_x and y/sigma_y.",
+             text="Generated beam parameters, placements, attenuator settings, 1-3 ion species with non-uniform profiles and analytic stopping coefficients. The cross-section integral of Beam.density (48x48 Gauss-Legendre; polar rule inside the clamp ellipse) must equal P/(E m)/v * exp(-tau(z)) within the a-priori error bound of the documented trapezoid/linear-interpolation scheme; plus monotone on-axis decay, zeros outside [0,L] and outside the clamp, unit direction field whose streamlines keep x/sigma_x and y/sigma_y. A second live beam fed by the same plasma (repeat / alone relations), hollow plasmas with exactly zero density between lobes, and direction vectors kept across later calls are part of every run.",
              ref="DESIGN.md section 3, C04"),
  "C06": dict(engine="hypothesis-stateful", technique="stateful model-based testing: repository vs dict reference model, bit-for-bit read-back, file-set and stray-write invariants",
-             text="Rule-based state machine over all add_*/update_* functions of the 14 rate families (batched updates, rejected updates, reads) against a dict model keyed as the property states; every key is read back bit for bit (uint64 view), never-written neighbours must raise RuntimeError, the set of files must equal the set implied by the writes, nothing may appear outside the (generated, oddly named) repository directory and a redirected HOME must stay empty; install_adf11* (directly and through install_files) and install_adf15 fed by independent writers; rejected updates incl. invalid content aimed at files that already hold data. Exploration of generated histories (<=30 steps).",
+             text="Rule-based state machine over all add_*/update_* functions of the 14 rate families (batched updates, rejected updates, reads) against a dict model keyed as the property states; every key is read back bit for bit (uint64 view), never-written neighbours must raise RuntimeError, the set of files must equal the set implied by the writes, nothing may appear outside the (generated, oddly named) repository directory and a redirected HOME must stay empty; install_adf11* (directly and through install_files) and install_adf15 fed by independent writers; rejected updates incl. invalid content aimed at files that already hold data. Exploration of generated histories (<=30 steps). Transition spellings that look like numbers ('03', ' 3', '+3', '3_0', '3.0') are keys of their own.",
              ref="DESIGN.md section 3, C06"),
  "C19": dict(engine="enumeration+hypothesis-given", technique="exhaustive enumeration of the registry + generated Line pairs against a tuple-equality model",
-             text="Finite registry: every exported Element/Isotope x every identifier kind x letter-case spellings is looked up and must return the same object; all ordered species pairs are compared for ==/!=/hash; Z is compared with an independent periodic table. Look-ups are repeated after equal copies and user-defined species were constructed; copies by constructor, pickle, deepcopy and cloned parent must be equal, equally hashed dict keys. Exhaustive over the objects, so exploration is complete for the registry; Line equality/hash (incl. other numeric spellings of a transition) is sampled with Hypothesis.",
+             text="Finite registry: every exported Element/Isotope x every identifier kind x letter-case spellings is looked up and must return the same object; all ordered species pairs are compared for ==/!=/hash; Z is compared with an independent periodic table. Look-ups are repeated after equal copies and user-defined species were constructed; copies by constructor, pickle, deepcopy and cloned parent must be equal, equally hashed dict keys. Exhaustive over the objects, so exploration is complete for the registry; Line equality/hash (incl. other numeric spellings of a transition) is sampled with Hypothesis. Species and lines pickled by child interpreters with other hash seeds must equal, hash like and be found by the local objects.",
              ref="DESIGN.md section 3, C19"),
 }
 
